@@ -363,6 +363,8 @@ def run_scenario(args):
             if probs and len(res['bad']) < 3:
                 v, model = c.model()
                 res['bad'].append(dict(problems=sorted(set(probs)), model={k: int(x) for k, x in model.items() if x is not None}))
+                if len(res['bad']) >= 3:
+                    break          # three failing paths establish the violation: no need to enumerate the rest
     except Inconclusive as e:
         res['inconclusive'] = str(e)
     res['seconds'] = round(time.time() - t0, 2)
